@@ -10,7 +10,7 @@ Import ListNotations.
 Definition example_value : pv :=
   PDict true [ (KStr [97%N], PList true [PInt 1; PFlt 1 1; PNone]);
                (KInt 1, PObj [65%N] 0 [(KStr [120%N], PTuple [PBool true; PFlt 3 1]); (KStr [121%N], PMissing)]) ].
-Example cmp_ok_example : cmp_ok tbl (fun _ => 0%N) FNum example_value = true.
+Example cmp_ok_example : cmp_ok tbl FNum example_value = true.
 Proof. vm_compute. reflexivity. Qed.
 Example hashable_example : hashable example_value = true.
 Proof. vm_compute. reflexivity. Qed.
@@ -20,11 +20,10 @@ Proof. vm_compute. reflexivity. Qed.
 Example lt_mixed_keys : lt tbl (PDict false [(KStr [97%N], PInt 1)]) (PDict true [(KInt 1, PInt 1)]) = Ok false.
 Proof. vm_compute. reflexivity. Qed.
 
-(* two different classes with the same __qualname__: Object.sym_lt hands the pair back to base.lt, which hands it
-   back to sym_lt, ... (RecursionError); open finding, outside [cmp_ok] for any one class table *)
-Definition twin_a : pv := PObj [65%N] 0 [(KStr [120%N], PInt 1)].
+(* two different classes with the same __qualname__ (repaired finding): ordered by class uid, not equal *)
+Definition twin_a : pv := PObj [65%N] 0 [(KStr [120%N], PInt 5)].
 Definition twin_b : pv := PObj [65%N] 1 [(KStr [120%N], PInt 1)].
-Lemma same_qualname_refuted :
-  cmp_ok tbl (fun _ => 0%N) FNum twin_a = true /\ cmp_ok tbl (fun _ => 1%N) FNum twin_b = true /\
-  eq twin_a twin_b = false /\ lt tbl twin_a twin_b = Err ERecursion /\ lt tbl twin_b twin_a = Err ERecursion.
+Example same_qualname_ordered :
+  cmp_ok tbl FNum twin_a = true /\ cmp_ok tbl FNum twin_b = true /\
+  eq twin_a twin_b = false /\ lt tbl twin_a twin_b = Ok true /\ lt tbl twin_b twin_a = Ok false.
 Proof. vm_compute. repeat split; reflexivity. Qed.
